@@ -146,3 +146,300 @@ Proof.
   intros u v Hu Hv. rewrite (Hval u v Hu Hv).
   destruct (String.eqb u x); [discriminate | apply Rel_ops.clean_ne_I; exact Hc].
 Qed.
+
+(* ------------------------------------------------------------------ *)
+(* the delta lists recorded by the corrections are sorted               *)
+
+Lemma corr_cell_rec_sorted bad p s : pwf p -> In s (snd (corr_cell bad p)) -> dsorted s.
+Proof.
+  intros [_ Hp] H. apply Rel_corr_base.corr_cell_snd_In in H. destruct H as [m [Hm [_ <-]]].
+  rewrite Forall_forall in Hp. apply (Hp m Hm).
+Qed.
+
+Lemma while_rec_sorted r s : rel_pwf r -> In s (snd (while_correction r)) -> dsorted s.
+Proof.
+  intros Hp H. unfold while_correction in H. cbv zeta in H. cbn [snd] in H.
+  apply in_concat in H. destruct H as [l [Hl Hs]].
+  apply in_map_iff in Hl. destruct Hl as [crow [<- Hcrow]].
+  apply in_map_iff in Hcrow. destruct Hcrow as [[i row] [<- Hir]]. apply in_combine_r in Hir.
+  apply in_concat in Hs. destruct Hs as [l2 [Hl2 Hs]].
+  apply in_map_iff in Hl2. destruct Hl2 as [cc [<- Hcc]].
+  apply in_map_iff in Hcc. destruct Hcc as [[j p] [<- Hjp]]. apply in_combine_r in Hjp.
+  eapply corr_cell_rec_sorted; [|exact Hs].
+  unfold rel_pwf in Hp. rewrite Forall_forall in Hp. specialize (Hp _ Hir).
+  rewrite Forall_forall in Hp. apply Hp. exact Hjp.
+Qed.
+
+Definition mxP (m : matrix) : Prop := Forall (fun row => Forall pwf row) m.
+
+Lemma set_cell_mxP m i j p : mxP m -> pwf p -> mxP (set_cell m i j p).
+Proof.
+  intros Hm Hp. unfold set_cell, mxP. apply Poly_wf.list_update_forall; [|exact Hm].
+  intros row Hrow. apply Poly_wf.list_update_forall; [intros _ _; exact Hp | exact Hrow].
+Qed.
+
+Lemma fold_propagate_mxP ell j pm : forall m, mxP m ->
+  mxP (fold_left (fun acc mo => set_cell acc ell j (padd (mget acc ell j) [mono_copy mo])) pm m).
+Proof.
+  induction pm as [|mo pm IH]; intros m Hm; simpl; [exact Hm|].
+  apply IH. apply set_cell_mxP; [exact Hm|].
+  apply Poly_wf.padd_pwf_r. constructor; [apply Poly_wf.mono_copy_mwf | constructor].
+Qed.
+
+Lemma loop_cell_P ell m i j : mxP m ->
+  mxP (fst (loop_cell ell m i j)) /\ Forall dsorted (snd (loop_cell ell m i j)).
+Proof.
+  intros Hm.
+  pose proof (Rel_ops.mget_pwf m i j Hm) as Hp.
+  pose proof (Rel_corr_base.corr_map_pwf (fun s => L_BAD s (Nat.eqb i j)) _ Hp) as Hp'.
+  split.
+  - unfold loop_cell, corr_cell. cbv beta iota zeta. cbn [fst snd].
+    apply fold_propagate_mxP. apply set_cell_mxP; [exact Hm | exact Hp'].
+  - apply Forall_forall. intros s Hs.
+    apply (corr_cell_rec_sorted (fun s => L_BAD s (Nat.eqb i j)) (mget m i j) s Hp).
+    unfold loop_cell, corr_cell in Hs. cbv beta iota zeta in Hs. cbn [fst snd] in Hs.
+    unfold corr_cell. cbn [snd]. exact Hs.
+Qed.
+
+Lemma loop_fold_P ell cells : forall st, mxP (fst st) -> Forall dsorted (snd st) ->
+  let st' := fold_left (fun '(m, rec) '(i, j) =>
+                          let '(m', r') := loop_cell ell m i j in (m', (rec ++ r')%list))
+                       cells st in
+  mxP (fst st') /\ Forall dsorted (snd st').
+Proof.
+  induction cells as [|[i j] cells IH]; intros [m rec] Hm Hrec; cbn [fold_left].
+  - split; assumption.
+  - destruct (loop_cell_P ell m i j Hm) as [A B].
+    destruct (loop_cell ell m i j) as [m' r']. cbn [fst snd] in A, B.
+    apply IH; cbn [fst snd]; [exact A | apply Forall_app; split; assumption].
+Qed.
+
+Lemma loop_rec_sorted r x r' rec : loop_correction r x = Some (r', rec) -> rel_pwf r ->
+  Forall dsorted rec.
+Proof.
+  unfold loop_correction. intros H Hr.
+  destruct (index_of_str x (rvars r)) as [ell|]; [|discriminate]. cbv zeta in H.
+  match type of H with
+  | context [fold_left ?F ?l ?a] =>
+      pose proof (loop_fold_P ell l a Hr (Forall_nil _)) as HF;
+      cbv zeta in HF; destruct (fold_left F l a) as [m rec0]
+  end.
+  injection H as <- <-. exact (proj2 HF).
+Qed.
+
+(* ------------------------------------------------------------------ *)
+(* assembling sim_res once the per-choice facts are known               *)
+
+Lemma close_common V d rb dv rfin rec d1 d2 (dm : option smat -> option smat) :
+  sim_res V d rb dv -> cr_exit rb = false ->
+  rel_ok V rfin ->
+  (forall n, In n rec -> dsorted n /\ Forall (fun dl => fst dl < 3) n) ->
+  dg_insert_all (cr_dg rb) rec = ROk d1 -> dg_fusion d1 = ROk d2 ->
+  dm None = None ->
+  (forall cs B, in_domain cs -> fst (dv cs) = Some B ->
+     clean (cr_rel rb) (choice_of_list cs) -> eqV V (rval (cr_rel rb) (choice_of_list cs)) B ->
+     (dm (Some B) = None -> exists s, In s rec /\ mmatch (choice_of_list cs) s = true) /\
+     (forall A, dm (Some B) = Some A ->
+        (forall s, In s rec -> mmatch (choice_of_list cs) s = false) /\
+        clean rfin (choice_of_list cs) /\ eqV V (rval rfin (choice_of_list cs)) A)) ->
+  sim_res V d {| cr_index := cr_index rb; cr_rel := rfin; cr_exit := dg_is_empty d2; cr_dg := d2 |}
+          (fun cs => (dm (fst (dv cs)), snd (dv cs))).
+Proof.
+  intros [Hinv [Hinc [Hok Hcs]]] Hex Hokf Hrecwf E1 E2 HdmN Hper.
+  destruct (close_dg_step _ rec d1 d2 Hinv Hrecwf E1 E2) as [Hinv2 Hrec2].
+  unfold sim_res. cbn [cr_dg cr_rel cr_exit cr_index].
+  split; [exact Hinv2|]. split.
+  { intros n Hn. apply Hrec2. right. apply Hinc. exact Hn. }
+  split; [exact Hokf|].
+  intros cs Hdom. cbv zeta. cbn [fst snd].
+  pose proof (Hcs cs Hdom) as HC. cbv zeta in HC. destruct HC as [C1 [_ C3]].
+  destruct (C3 Hex) as [Cidx [CN CS]]. clear C3.
+  assert (Hmono : cov (cr_dg rb) (choice_of_list cs) -> cov d2 (choice_of_list cs)).
+  { apply cov_mono. intros n Hn. apply Hrec2. right. exact Hn. }
+  split; [|split].
+  - intros A HA Hcov. destruct (fst (dv cs)) as [B|] eqn:EB; [|rewrite HdmN in HA; discriminate].
+    destruct (CS B eq_refl) as [Hcl HeqB].
+    destruct (Hper cs B Hdom EB Hcl HeqB) as [_ P2]. destruct (P2 A HA) as [Hno _].
+    apply (C1 B eq_refl). destruct Hcov as [n [Hn Hm]]. apply Hrec2 in Hn. destruct Hn as [Hn|Hn].
+    + rewrite (Hno n Hn) in Hm. discriminate.
+    + exists n. split; assumption.
+  - intros He. apply dg_empty_cov; assumption.
+  - intros _. split; [exact Cidx|]. split.
+    + intros HN. destruct (fst (dv cs)) as [B|] eqn:EB.
+      * destruct (CS B eq_refl) as [Hcl HeqB].
+        destruct (Hper cs B Hdom EB Hcl HeqB) as [P1 _]. destruct (P1 HN) as [s [Hs Hm]].
+        exists s. split; [apply Hrec2; left; exact Hs | exact Hm].
+      * apply Hmono. apply CN. reflexivity.
+    + intros A HA. destruct (fst (dv cs)) as [B|] eqn:EB; [|rewrite HdmN in HA; discriminate].
+      destruct (CS B eq_refl) as [Hcl HeqB].
+      destruct (Hper cs B Hdom EB Hcl HeqB) as [_ P2]. destruct (P2 A HA) as [_ [Q1 Q2]].
+      split; assumption.
+Qed.
+
+Lemma not_exists_match (c : choice) (rec : list (list delta)) :
+  ~ (exists s, In s rec /\ mmatch c s = true) -> forall s, In s rec -> mmatch c s = false.
+Proof.
+  intros H s Hs. destruct (mmatch c s) eqn:E; [|reflexivity]. exfalso. apply H. exists s. split; assumption.
+Qed.
+
+(* ------------------------------------------------------------------ *)
+(* while                                                               *)
+
+Theorem close_while_sim : close_while_sim_stmt.
+Proof.
+  intros V d rb dv r [HndV HneV] Hsim Hex Hfin E.
+  pose proof Hsim as [Hinv [Hinc [[Hwf [Hpwf [Hdomb Hincl]]] Hcs]]].
+  unfold close_while in E. cbv zeta in E.
+  destruct (comp_empty_sem (cr_rel rb) Hwf Hpwf) as [W0 [P0 [Vs0 Hc0]]].
+  pose proof (Rel_dom.rel_dom_comp rel_empty (cr_rel rb) Rel_dom.rel_dom_empty Hdomb) as D0.
+  set (r0 := rel_comp rel_empty (cr_rel rb)) in *.
+  destruct (rel_fixpoint fix_fuel r0) as [fx|] eqn:Efx; [|discriminate].
+  destruct (Rel_fix_closed.rel_fixpoint_sem fix_fuel r0 fx W0 P0 Efx) as [Wf [Pf [_ [Vf Hcf]]]].
+  pose proof (Rel_dom.rel_dom_fixpoint fix_fuel r0 fx Efx D0) as Df.
+  pose proof (Rel_corr.while_correction_sem fx Wf Pf) as HW.
+  pose proof (Rel_dom.rel_dom_while_correction fx Df) as [Dw Drec].
+  pose proof (fun s => while_rec_sorted fx s Pf) as Srec.
+  destruct (while_correction fx) as [rw rec] eqn:Ew. cbn [fst snd] in Dw, Drec, Srec.
+  destruct HW as [Ww [Pww [Vw Hcw]]].
+  destruct (dg_insert_all (cr_dg rb) rec) as [d1|] eqn:E1; cbn [rbind] in E; [|discriminate].
+  destruct (dg_fusion d1) as [d2|] eqn:E2; cbn [rbind] in E; [|discriminate].
+  inversion E; subst r; clear E.
+  set (Vr := rvars r0) in *.
+  assert (HinclR : incl Vr V) by (intros v Hv; apply Hincl; apply Vs0; exact Hv).
+  assert (HndR : NoDup Vr) by (destruct W0 as [H _]; exact H).
+  apply (close_common V d rb dv rw rec d1 d2 (d_while V) Hsim Hex); try assumption.
+  - (* rel_ok *)
+    split; [exact Ww|]. split; [exact Pww|]. split; [exact Dw|]. rewrite Vw, Vf. exact HinclR.
+  - intros n Hn. split; [apply Srec | apply Drec]; exact Hn.
+  - reflexivity.
+  - intros cs B Hdomcs EB Hcl HeqB. set (c := choice_of_list cs) in *.
+    destruct (Hc0 c Hcl) as [Hcl0 Heq0].
+    destruct (Hcf c Hcl0) as [Hclf [Hstar _]]. fold Vr in Hstar.
+    set (A0 := rval r0 c) in *. set (F := rval fx c) in *.
+    assert (HidA0 : id_outside Vr A0) by apply rval_id_outside.
+    assert (HidF : id_outside Vr F) by (rewrite <- Vf; apply rval_id_outside).
+    assert (HidB : id_outside Vr (rval (cr_rel rb) c)).
+    { intros a b Hab. apply rval_id_outside.
+      destruct Hab as [H|H]; [left|right]; intros H1; apply H; apply Vs0; exact H1. }
+    assert (HA0B : eqV V A0 B).
+    { eapply eqV_trans; [apply (id_outside_eqV V Vr _ _ HidA0 HidB Heq0) | exact HeqB]. }
+    assert (HfA0 : finite_on V A0) by (apply clean_finite_on; exact Hcl0).
+    assert (HfF : finite_on V F) by (apply clean_finite_on; exact Hclf).
+    pose proof (is_star_lift V Vr A0 F HndV HndR HinclR HidA0 HidF HfA0 HfF Hstar) as HstarV.
+    pose proof (is_star_ext V A0 B F F HA0B (eqV_refl V F) HstarV) as HstarB.
+    pose proof (Hfin cs B EB) as HfB.
+    destruct (sstar_total V B HndV HfB) as [St ESt].
+    destruct (sstar_sound V B St HndV HfB ESt) as [HSt _].
+    pose proof (is_star_unique V B F St HstarB HSt) as HFSt.
+    assert (Hwok : w_ok V St = w_ok Vr F).
+    { rewrite <- (w_ok_ext V F St HFSt). apply w_ok_restrict; assumption. }
+    destruct (Hcw c Hclf) as [Hiff Hno]. rewrite Vf in Hiff, Hno. fold Vr in Hiff, Hno. fold F in Hiff, Hno.
+    unfold d_while. rewrite ESt, Hwok. destruct (w_ok Vr F) eqn:Ewk.
+    + split; [discriminate|]. intros A HA. inversion HA; subst A.
+      assert (Hnone : forall s, In s rec -> mmatch c s = false).
+      { apply not_exists_match. intros H. apply Hiff in H. discriminate. }
+      destruct (Hno Hnone) as [Hclw Heqw].
+      split; [exact Hnone|]. split; [exact Hclw|].
+      eapply eqV_trans; [|exact HFSt].
+      apply (id_outside_eqV V Vr); [|exact HidF|exact Heqw].
+      rewrite <- Vf, <- Vw. apply rval_id_outside.
+    + split; [|discriminate]. intros _. apply Hiff. reflexivity.
+Qed.
+
+(* ------------------------------------------------------------------ *)
+(* counted for                                                         *)
+
+Theorem close_for_sim : close_for_sim_stmt.
+Proof.
+  intros V d rb dv x r [HndV HneV] Hsim Hex Hfin HxV Hxnb E.
+  assert (Hxne : x <> EmptyString) by (rewrite Forall_forall in HneV; apply HneV; exact HxV).
+  pose proof Hsim as [Hinv [Hinc [[Hwf [Hpwf [Hdomb Hincl]]] Hcs]]].
+  unfold close_for in E. cbv zeta in E.
+  destruct (comp_zero_sem x (cr_rel rb) Hxne Hwf Hpwf) as [W0 [P0 [Vs0 Hc0]]].
+  pose proof (Rel_dom.rel_dom_comp (rel_zero [x]) (cr_rel rb) (Rel_dom.rel_dom_zero [x]) Hdomb) as D0.
+  set (r0 := rel_comp (rel_zero [x]) (cr_rel rb)) in *.
+  destruct (rel_fixpoint fix_fuel r0) as [fx|] eqn:Efx; [|discriminate].
+  destruct (Rel_fix_closed.rel_fixpoint_sem fix_fuel r0 fx W0 P0 Efx) as [Wf [Pf [Nf [Vf Hcf]]]].
+  pose proof (Rel_dom.rel_dom_fixpoint fix_fuel r0 fx Efx D0) as Df.
+  set (Vr := rvars r0) in *.
+  assert (HxR : In x Vr) by (apply Vs0; left; reflexivity).
+  assert (Hxf : In x (rvars fx)) by (rewrite Vf; exact HxR).
+  destruct (Rel_corr.loop_correction_sem fx x Wf Pf Nf Hxf) as [rl [rec [El [Wl [Pl [Vl Hcl]]]]]].
+  rewrite El in E.
+  destruct (Rel_dom.rel_dom_loop_correction fx x rl rec El Df) as [Dl Drec].
+  pose proof (loop_rec_sorted fx x rl rec El Pf) as Srec. rewrite Forall_forall in Srec.
+  destruct (dg_insert_all (cr_dg rb) rec) as [d1|] eqn:E1; cbn [rbind] in E; [|discriminate].
+  destruct (dg_fusion d1) as [d2|] eqn:E2; cbn [rbind] in E; [|discriminate].
+  inversion E; subst r; clear E.
+  assert (HinclR : incl Vr V).
+  { intros v Hv. apply Vs0 in Hv. destruct Hv as [->|Hv]; [exact HxV | apply Hincl; exact Hv]. }
+  assert (HndR : NoDup Vr) by (destruct W0 as [H _]; exact H).
+  apply (close_common V d rb dv rl rec d1 d2 (d_for V x) Hsim Hex); try assumption.
+  - split; [exact Wl|]. split; [exact Pl|]. split; [exact Dl|]. rewrite Vl, Vf. exact HinclR.
+  - intros n Hn. split; [apply Srec | apply Drec]; exact Hn.
+  - reflexivity.
+  - intros cs B Hdomcs EB Hclb HeqB. set (c := choice_of_list cs) in *.
+    destruct (Hc0 c Hclb) as [Hcl0 Hval0]. fold Vr in Hval0.
+    set (A0 := rval r0 c) in *. set (Bb := rval (cr_rel rb) c) in *.
+    assert (HidA0 : id_outside Vr A0) by apply rval_id_outside.
+    assert (HidB : id_outside Vr Bb).
+    { intros a b Hab. apply rval_id_outside.
+      destruct Hab as [H|H]; [left|right]; intros H1; apply H; apply Vs0; right; exact H1. }
+    assert (HBx : forall v, Bb x v = sid x v).
+    { intros v. apply rval_id_outside. left. exact Hxnb. }
+    assert (HBcx : forall i, i <> x -> Bb i x = O).
+    { intros i Hi. unfold Bb. rewrite rval_id_outside by (right; exact Hxnb). apply sid_neq. exact Hi. }
+    assert (Hcol : forall i, In i Vr -> i <> x -> A0 i x = O).
+    { intros i Hi Hne. unfold A0. rewrite (Hval0 i x Hi HxR).
+      destruct (String.eqb i x) eqn:Ei; [reflexivity|]. apply HBcx. exact Hne. }
+    destruct (Hcf c Hcl0) as [Hclf [Hstar Hcolf]]. fold Vr in Hstar, Hcolf. fold A0 in Hstar, Hcolf.
+    specialize (Hcolf x HxR Hcol).
+    set (F := rval fx c) in *.
+    assert (HidF : id_outside Vr F) by (rewrite <- Vf; apply rval_id_outside).
+    assert (HfA0 : finite_on V A0) by (apply clean_finite_on; exact Hcl0).
+    assert (HfF : finite_on V F) by (apply clean_finite_on; exact Hclf).
+    pose proof (is_star_lift V Vr A0 F HndV HndR HinclR HidA0 HidF HfA0 HfF Hstar) as HstarV.
+    assert (Hle1 : leV V A0 B).
+    { intros u v Hu Hv. rewrite <- (HeqB u v Hu Hv).
+      destruct (in_dec string_dec u Vr) as [Hur|Hur];
+        [destruct (in_dec string_dec v Vr) as [Hvr|Hvr]|].
+      - unfold A0. rewrite (Hval0 u v Hur Hvr). destruct (String.eqb u x); [apply sc_le_O | apply sc_le_refl].
+      - rewrite HidA0, HidB by (right; exact Hvr). apply sc_le_refl.
+      - rewrite HidA0, HidB by (left; exact Hur). apply sc_le_refl. }
+    assert (Hle2 : leV V B (sadd A0 sid)).
+    { intros u v Hu Hv. rewrite <- (HeqB u v Hu Hv). unfold sadd.
+      destruct (in_dec string_dec u Vr) as [Hur|Hur];
+        [destruct (in_dec string_dec v Vr) as [Hvr|Hvr]|].
+      - unfold A0 at 1. rewrite (Hval0 u v Hur Hvr). destruct (String.eqb u x) eqn:Eu.
+        + apply String.eqb_eq in Eu. subst u. rewrite HBx. apply sc_le_ssum_r.
+        + apply sc_le_ssum_l.
+      - rewrite HidA0, HidB by (right; exact Hvr). apply sc_le_ssum_l.
+      - rewrite HidA0, HidB by (left; exact Hur). apply sc_le_ssum_l. }
+    pose proof (is_star_between V A0 B F HndV HfA0 HfF Hle1 Hle2 HstarV) as HstarB.
+    pose proof (Hfin cs B EB) as HfB.
+    destruct (sstar_total V B HndV HfB) as [St ESt].
+    destruct (sstar_sound V B St HndV HfB ESt) as [HSt _].
+    pose proof (is_star_unique V B F St HstarB HSt) as HFSt.
+    assert (Hlok : l_ok V St = l_ok Vr F).
+    { rewrite <- (l_ok_ext V F St HFSt). apply l_ok_restrict; assumption. }
+    assert (Hdiag : forall v, In v Vr -> sc_le M (F v v)).
+    { intros v Hv. apply (is_star_diag Vr A0 F v Hstar Hv). }
+    rewrite Vf in Hcl. fold Vr in Hcl.
+    destruct (Hcl c Hclf Hdiag Hcolf) as [Hiff Hno]. fold F in Hiff, Hno.
+    unfold d_for. rewrite ESt, Hlok. destruct (l_ok Vr F) eqn:Elk.
+    + split; [discriminate|]. intros A HA. inversion HA; subst A.
+      assert (Hnone : forall s, In s rec -> mmatch c s = false).
+      { apply not_exists_match. intros H. apply Hiff in H. discriminate. }
+      destruct (Hno Hnone) as [Hcll Heql].
+      split; [exact Hnone|]. split; [exact Hcll|].
+      intros u v Hu Hv. rewrite memo_eq.
+      assert (HidL : id_outside Vr (rval rl c)).
+      { rewrite <- Vf, <- Vl. apply rval_id_outside. }
+      rewrite (id_outside_eqV V Vr _ _ HidL (l_extend_id_outside Vr x F HxR HidF) Heql u v Hu Hv).
+      rewrite <- (l_extend_restrict V Vr x F u v HinclR HidF).
+      apply (l_extend_ext V x F St HFSt u v Hu Hv).
+    + split; [|discriminate]. intros _. apply Hiff. reflexivity.
+Qed.
+
+Print Assumptions close_while_sim.
+Print Assumptions close_for_sim.
